@@ -19,8 +19,24 @@ Definition E_MAGIC : Z := 4.
 Definition E_PULSE : Z := 5.
 Definition E_OFFSET : Z := 6.
 
-Definition field (lo hi : Z) (buf : list Z) : Z :=
-  le_Z (slice (Z.to_nat lo) (Z.to_nat hi) buf).
+(* panic sites of the path *)
+Definition P_SLICE_RANGE : Z := 4001.   (* buf[lo..hi] with hi > buf.len() *)
+Definition P_COPY_LEN : Z := 4002.      (* copy_from_slice length mismatch / slice range in receive_sample *)
+
+(* buf[lo..hi].try_into::<[u8; width]>().map_err(SliceError)? then from_le_bytes *)
+Definition field (lo hi width : Z) (buf : list Z) : res Z :=
+  if (Z.of_nat (length buf) <? hi) || (hi <? lo) then Panic P_SLICE_RANGE
+  else if negb (hi - lo =? width) then Err E_SLICE
+  else Ok (le_Z (slice (Z.to_nat lo) (Z.to_nat hi) buf)).
+
+(* the struct literal: fields are evaluated in source order, each with `?` *)
+Definition parse_fields (buf : list Z) : res sample :=
+  do off <- field SOCK_OFFSET_LO SOCK_OFFSET_HI 8 buf;
+  do pulse <- field SOCK_PULSE_LO SOCK_PULSE_HI 4 buf;
+  do leap <- field SOCK_LEAP_LO SOCK_LEAP_HI 4 buf;
+  do magic <- field SOCK_MAGIC_LO SOCK_MAGIC_HI 4 buf;
+  Ok {| s_offset := off; s_pulse := to_signed 32 pulse;
+        s_leap := to_signed 32 leap; s_magic := to_signed 32 magic |}.
 
 (* fn deserialize_sample(result: Result<usize, io::Error>, buf: [u8; SOCK_SAMPLE_SIZE])
    [result]: None = Err(io error), Some n = Ok(n) *)
@@ -30,10 +46,7 @@ Definition deserialize_sample (result : option Z) (buf : list Z) : res sample :=
   | Some size =>
     if negb (size =? SOCK_SAMPLE_SIZE) then Err E_SIZE
     else
-      let s := {| s_offset := field SOCK_OFFSET_LO SOCK_OFFSET_HI buf;
-                  s_pulse := to_signed 32 (field SOCK_PULSE_LO SOCK_PULSE_HI buf);
-                  s_leap := to_signed 32 (field SOCK_LEAP_LO SOCK_LEAP_HI buf);
-                  s_magic := to_signed 32 (field SOCK_MAGIC_LO SOCK_MAGIC_HI buf) |} in
+      do s <- parse_fields buf;
       if negb (s_magic s =? SOCK_MAGIC) then Err E_MAGIC
       else if negb (s_pulse s =? 0) then Err E_PULSE
       else if negb (f64_is_finite (f64_of_bits (s_offset s))) then Err E_OFFSET
@@ -53,7 +66,8 @@ Definition SOCK_RECV_BUFFER_SIZE : Z := SOCK_SAMPLE_SIZE + SOCK_RECV_EXTRA.
 
 (* fn receive_sample(result, buf: [u8; SOCK_RECV_BUFFER_SIZE]) *)
 Definition receive_sample (result : option Z) (buf : list Z) : res sample :=
-  deserialize_sample result (firstn (Z.to_nat SOCK_SAMPLE_SIZE) buf).
+  if Z.of_nat (length buf) <? SOCK_SAMPLE_SIZE then Panic P_COPY_LEN
+  else deserialize_sample result (firstn (Z.to_nat SOCK_SAMPLE_SIZE) buf).
 
 (* one loop iteration up to the decision: datagram -> sample or error *)
 Definition handle_datagram (dgram : list Z) : res sample :=
